@@ -67,10 +67,10 @@ CLAIMED = {
              "every account read, GetState, GetCommittedState, refund counter, log count and access list answer as the reference does "
              "(SDBSim.lean: relation preserved by every write, induction over the sequence; related start states exist for every "
              "store), on CreateAccount where evm.create may call it, and across a reverted frame (Snapshot, any writes on cached accounts, "
-             "RevertToSnapshot: both sides succeed and are related again, so frames chain); ApplyEvmMsg's EIP-3529 refund equals go-ethereum's for all inputs and never exceeds a fifth of the gas used. A "
+             "RevertToSnapshot: both sides succeed and are related again), hence on ANY list of write calls and failed frames "
+             "(SDBFrames.lean, induction over the list); ApplyEvmMsg's EIP-3529 refund equals go-ethereum's for all inputs and never exceeds a fifth of the gas used. A "
              "cross-implementation oracle reports the first call on which Nibiru's and go-ethereum's real StateDBs answer differently.",
-        note="NOT proved: one statement over arbitrary frame trees (frames nested inside kept frames, accounts first created inside a "
-             "reverted frame), and the reference's Commit "
+        note="NOT proved: frames nested inside frames, accounts first created inside a reverted frame, and the reference's Commit "
              "(what Nibiru's Commit persists is proved under C04) — there the observational equality is established by the correspondence "
              "runs only. Trusted: Lean kernel; the interpreter (same code on both sides); harness; GethSpec's fidelity to go-ethereum "
              "is itself validated by differential execution, not proved. Precompile calls are excluded here (C04/C08).",
